@@ -133,7 +133,7 @@ class Check(PropertyCheck):
         yield {"k": "hooks", "seed": 1}
         yield {"k": "real", "specs": [{"t": t, "seed": 5, "plain": 1} for t in ("http", "tcp", "dns")], "seed": 1}
         n = 0
-        while tier == "thorough" or n < 300:        # the quick tier is a fixed amount of work (about 25 000 loads)
+        while tier == "thorough" or n < 240:        # the quick tier is a fixed amount of work (about 25 000 loads)
             n += 1
             c = rng.random()
             if c < 0.6:
